@@ -36,7 +36,11 @@ def col_info():
         ty = 'TText' if fmt in 'text title' else ('TFloat' if '.' in fmt else 'TInt')
         title = f'{full} / {unit}' if unit != '' else f'{full}'
         info[tag] = (ty, str(title))
+        RAW[tag] = (str(tag), str(full), str(unit), int(width), fmt)
     return info
+
+
+RAW = {}
 
 
 def aval_lit(v):
@@ -128,9 +132,20 @@ def run_case(rng, info):
     if 'name' not in sel:
         sel = ['name'] + sel           # the constructor prepends it
     suppr, static = rng.random() < 0.6, rng.random() < 0.4
+    # a spreadsheet may redefine a built-in column (new_columns): here one numeric column of the selection gets the other
+    # kind of number format (float <-> integer), for this spreadsheet only
+    redefined = None
+    numeric = [t for t in sel if info[t][0] in ('TFloat', 'TInt') and t not in ('yin', 'yout')]
+    if numeric and rng.random() < 0.2:
+        t = rng.choice(numeric)
+        tag, full, unit, width, fmt = RAW[t]
+        newfmt, newty = ('0', 'TInt') if info[t][0] == 'TFloat' else ('0.000', 'TFloat')
+        redefined = (tag, full, unit, width, newfmt)
+        info = dict(info)
+        info[t] = (newty, info[t][1])
     with pgm.quiet():
         with Spreadsheet(device=dev, columns_names=' '.join(sel), book_name='book.xlsx', suppr_redd_cols=suppr,
-                         static_preamble=static) as ss:
+                         static_preamble=static, new_columns=[redefined] if redefined else None) as ss:
             ss.write_structures(verbose=False)
     structs = objs + mks
     cols, rows, pre = read_back('book.xlsx', info, len(structs))
@@ -170,7 +185,7 @@ def run_case(rng, info):
         copt(cnat(sel.index('yout')) if 'yout' in sel else None), structs_lit, out))
     long_name = any(isinstance(getattr(o, 'name', None), str) and len(o.name) > 20 for o in structs)
     big = any(isinstance(getattr(o, t, None), (int, float)) and getattr(o, t) >= 1e5 for o in structs for t in sel if t not in ('yin', 'yout'))
-    descr = {'columns': sel, 'suppr': suppr, 'static': static, 'n_wg': len(objs), 'n_mk': len(mks),
+    descr = {'columns': sel, 'suppr': suppr, 'static': static, 'new_columns': redefined, 'n_wg': len(objs), 'n_mk': len(mks),
              'names': [getattr(o, 'name', None) for o in structs], 'long_name': long_name, 'value_ge_1e5': big}
     return lit, descr
 
